@@ -17,14 +17,15 @@ for regexp in self.config.date_regex:
         break
 ```
 
-* `endsO` is the backtracking matcher of `RTV.Re` (`ends`: all end positions in priority order) that also threads the
-  captures of ALL numbered groups along every path (`Env`: newest capture first — the value of a group is its LAST
-  capture, and same-named groups of the `regex` module share one number, so a nested `(?<year>…(?<year>…))` reports the
-  outer span).  It asks an `Oracle` for every fact about the text: the outcome of a character-class test at a position,
-  whether a position holds a word character, whether it holds a newline.  With the oracle of a concrete string (`conc`)
-  this is the matcher; with the oracle of an ABSTRACT string (`absO`: a set of candidate code points per position, the
-  answer is `none` when the candidates disagree) the same function is a sound symbolic evaluation: whenever it answers
-  `some l`, every concrete string drawn from the candidates gives `l` (Lemmas/DateFront: `endsO_mono`).
+* `matchK` is the backtracking matcher of `RTV.Re` in continuation-passing form: it reports the FIRST match in the
+  priority order of `RTV.Re.ends` (what a backtracking engine reports) and threads the captures of ALL numbered groups
+  (`Env`: newest capture first — the value of a group is its LAST capture, and same-named groups of the `regex` module
+  share one number, so a nested `(?<year>…(?<year>…))` reports the outer span).  It asks an `Oracle` for every fact about
+  the text: the outcome of a character-class test at a position, whether a position holds a word character, whether it
+  holds a newline.  With the oracle of a concrete string (`conc`) this is the matcher; with the oracle of an ABSTRACT
+  string (`absO`: a set of candidate code points per position, the answer is `none` when the candidates disagree) the
+  same function is a sound symbolic evaluation: whenever it answers, every concrete string drawn from the candidates
+  gives the same answer (Lemmas/DateFront: `matchK_mono`).
 * `searchO` = `regex.search` (leftmost start, first end in priority order, the captures of that path),
   `parseBasicO` = the loop above, `parseBasic` = it on a concrete text, `groupsOf` = `RegExpUtility.get_group`,
   `frontToDate` / `frontResolve` = composed with `DtRes.matchToDate` / the resolution assembly.
@@ -45,37 +46,43 @@ structure Oracle where
   /-- is the character at a position a newline -/
   nl : Nat → Option Bool
 
-def flatMapO {α β : Type} (f : α → Option (List β)) : List α → Option (List β)
-  | [] => some []
-  | x :: xs =>
-    match f x with
-    | none => none
-    | some a =>
-      match flatMapO f xs with
-      | none => none
-      | some b => some (a ++ b)
+/-- outcome of a match attempt: the oracle could not answer (`unk`), no match (`fail`), or the end and the captures of
+the FIRST match in backtracking priority order -/
+inductive R where
+  | unk
+  | fail
+  | found (j : Nat) (e : Env)
+deriving DecidableEq, Repr, Inhabited
 
-def anyO {α : Type} (f : α → Option Bool) : List α → Option Bool
-  | [] => some false
-  | x :: xs =>
-    match f x with
-    | none => none
-    | some true => some true
-    | some false => anyO f xs
+/-- what happens after a sub-match ended at a position with some captures -/
+abbrev Kont := Nat → Env → R
 
-/-- `a{mn,mx}` from `i`: greedy tries one more iteration before stopping, lazy stops first (`RTV.Re.repEnds`) -/
-def repO (f : Nat → Env → Option (List (Nat × Env))) (greedy : Bool) :
-    Nat → Nat → Nat → Env → Option (List (Nat × Env))
-  | 0, mn, i, e => some (if mn = 0 then [(i, e)] else [])
-  | mx + 1, mn, i, e =>
-    match f i e with
-    | none => none
-    | some l =>
-      match flatMapO (fun p => repO f greedy mx (mn - 1) p.1 p.2) l with
-      | none => none
-      | some more =>
-        let stop := if mn = 0 then [(i, e)] else []
-        some (if greedy then more ++ stop else stop ++ more)
+/-- try `a`, on failure `b` (an unknown outcome stays unknown: nothing after it can be trusted) -/
+def orElse (a : R) (b : Unit → R) : R :=
+  match a with
+  | .fail => b ()
+  | x => x
+
+/-- branch on an oracle answer -/
+def ob (o : Option Bool) (t f : Unit → R) : R :=
+  match o with
+  | none => .unk
+  | some true => t ()
+  | some false => f ()
+
+/-- `a{mn,mx}` with continuation `k`: greedy tries one more iteration before stopping, lazy stops first
+(`RTV.Re.repEnds` in continuation-passing form); `f` is the matcher of the body -/
+def repK (f : Kont → Nat → Env → R) (greedy : Bool) : Nat → Nat → Kont → Nat → Env → R
+  | 0, mn, k, i, e => if mn = 0 then k i e else .fail
+  | mx + 1, mn, k, i, e =>
+    if mn = 0 then
+      if greedy then orElse (f (fun j e' => repK f greedy mx 0 k j e') i e) (fun _ => k i e)
+      else orElse (k i e) (fun _ => f (fun j e' => repK f greedy mx 0 k j e') i e)
+    else f (fun j e' => repK f greedy mx (mn - 1) k j e') i e
+
+def anyK (f : Nat → R) : List Nat → R
+  | [] => .fail
+  | x :: xs => orElse (f x) (fun _ => anyK f xs)
 
 def wordAtO (O : Oracle) (i : Nat) : Option Bool := if i < O.size then O.word i else some false
 
@@ -92,47 +99,34 @@ def isWordBO (O : Oracle) (i : Nat) : Option Bool :=
 def eolO (O : Oracle) (i : Nat) : Option Bool :=
   if i = O.size then some true else if i + 1 = O.size then O.nl i else some false
 
-/-- All `(end, captures)` of a match of `r` starting at `i`, in backtracking priority order; `none` = the oracle could
-not answer a question that was asked. Captures made inside look-around assertions are dropped (the translator refuses
-tracked groups there). -/
-def endsO (O : Oracle) : RE → Nat → Env → Option (List (Nat × Env))
-  | .eps, i, e => some [(i, e)]
-  | .cls items neg, i, e =>
-    if i < O.size then
-      match O.cls i items neg with
-      | none => none
-      | some b => some (if b then [(i + 1, e)] else [])
-    else some []
-  | .seq a b, i, e =>
-    match endsO O a i e with
-    | none => none
-    | some l => flatMapO (fun p => endsO O b p.1 p.2) l
-  | .alt a b, i, e =>
-    match endsO O a i e with
-    | none => none
-    | some x =>
-      match endsO O b i e with
-      | none => none
-      | some y => some (x ++ y)
-  | .rep a mn mx g, i, e => repO (endsO O a) g mx mn i e
-  | .repU a mn g, i, e => repO (endsO O a) g (mn + O.size + 1) mn i e
-  | .grp n a, i, e =>
-    match endsO O a i e with
-    | none => none
-    | some l => some (l.map fun p => (p.1, if n = 0 then p.2 else (n, i, p.1) :: p.2))
-  | .wordB, i, e => (isWordBO O i).map fun b => if b then [(i, e)] else []
-  | .nwordB, i, e => (isWordBO O i).map fun b => if b then [] else [(i, e)]
-  | .bol, i, e => some (if i = 0 then [(i, e)] else [])
-  | .eol, i, e => (eolO O i).map fun b => if b then [(i, e)] else []
-  | .eos, i, e => some (if i = O.size then [(i, e)] else [])
-  | .look true neg a, i, e =>
-    match endsO O a i e with
-    | none => none
-    | some l => some (if l.isEmpty = neg then [(i, e)] else [])
-  | .look false neg a, i, e =>
-    match anyO (fun k => (endsO O a k e).map fun l => l.any fun p => p.1 == i) (List.range (i + 1)) with
-    | none => none
-    | some b => some (if b = neg then [] else [(i, e)])
+/-- The backtracking matcher in continuation-passing form: `matchK O r k i e` = the first outcome, in the priority order
+of `RTV.Re.ends` (`alt`: left before right, greedy repeat: one more iteration before stopping), of matching `r` at `i`
+and then running `k` at the end; a failing continuation makes the matcher backtrack. Captures made inside look-around
+assertions are dropped (the translator refuses tracked groups there). -/
+def matchK (O : Oracle) : RE → Kont → Nat → Env → R
+  | .eps, k, i, e => k i e
+  | .cls items neg, k, i, e =>
+    if i < O.size then ob (O.cls i items neg) (fun _ => k (i + 1) e) (fun _ => .fail) else .fail
+  | .seq a b, k, i, e => matchK O a (fun j e' => matchK O b k j e') i e
+  | .alt a b, k, i, e => orElse (matchK O a k i e) (fun _ => matchK O b k i e)
+  | .rep a mn mx g, k, i, e => repK (matchK O a) g mx mn k i e
+  | .repU a mn g, k, i, e => repK (matchK O a) g (mn + O.size + 1) mn k i e
+  | .grp n a, k, i, e => matchK O a (fun j e' => k j (if n = 0 then e' else (n, i, j) :: e')) i e
+  | .wordB, k, i, e => ob (isWordBO O i) (fun _ => k i e) (fun _ => .fail)
+  | .nwordB, k, i, e => ob (isWordBO O i) (fun _ => .fail) (fun _ => k i e)
+  | .bol, k, i, e => if i = 0 then k i e else .fail
+  | .eol, k, i, e => ob (eolO O i) (fun _ => k i e) (fun _ => .fail)
+  | .eos, k, i, e => if i = O.size then k i e else .fail
+  | .look true neg a, k, i, e =>
+    match matchK O a (fun j _ => .found j []) i e with
+    | .unk => .unk
+    | .found _ _ => if neg then .fail else k i e
+    | .fail => if neg then k i e else .fail
+  | .look false neg a, k, i, e =>
+    match anyK (fun s => matchK O a (fun j _ => if j = i then .found j [] else .fail) s e) (List.range (i + 1)) with
+    | .unk => .unk
+    | .found _ _ => if neg then .fail else k i e
+    | .fail => if neg then k i e else .fail
 
 /-- a reported match -/
 structure MatchG where
@@ -141,16 +135,16 @@ structure MatchG where
   env : Env
 deriving DecidableEq, Repr, Inhabited
 
-/-- `regex.search`: the leftmost start with a match, the first end in priority order, its captures -/
+/-- `regex.search`: the leftmost start with a match, the first end in priority order, the captures of that path -/
 def searchFromO (O : Oracle) (r : RE) : Nat → Nat → Option (Option MatchG)
   | 0, _ => some none
   | fuel + 1, pos =>
     if pos > O.size then some none
     else
-      match endsO O r pos [] with
-      | none => none
-      | some [] => searchFromO O r fuel (pos + 1)
-      | some (p :: _) => some (some ⟨pos, p.1, p.2⟩)
+      match matchK O r (fun j e => .found j e) pos [] with
+      | .unk => none
+      | .fail => searchFromO O r fuel (pos + 1)
+      | .found j e => some (some ⟨pos, j, e⟩)
 
 def searchO (O : Oracle) (r : RE) : Option (Option MatchG) := searchFromO O r (O.size + 1) 0
 
@@ -240,5 +234,51 @@ sub-parsers of `parse` run only when this one does not succeed: then the answer 
 def frontResolve (T : Tables) (u : RTV.DtRes.Uni) (cfg : RTV.DtRes.DateCfg) (pre : Str) (rs : List (Option RE))
     (source : Str) (writtenYear : Int) (ref : RTV.DtRes.DT) : Except String (Option (List RTV.DtRes.Value)) := do
   RTV.DtRes.dateTimeResolution u (RTV.DtRes.toSlot .date (← frontToDate T u cfg pre rs source writtenYear ref))
+
+/-! ## The layouts of the C06 contract (specification side)
+
+`contracts/C06.json["layouts"]["en-us"]` lists templates such as `{mon} {dord}, {y}`; the translator emits them as token
+lists (RTV/Gen/DateLayoutsEn.lean).  `renderL` is the text of a date in a layout, as harness/corr/c06.py `render` writes
+it. -/
+
+inductive Tok
+  | lit (c : Nat)
+  /-- `{y}` four-digit year, `{m}` / `{d}` unpadded, `{m02}` / `{d02}` zero-padded, `{mon}` month name, `{abbr}`
+  three-letter abbreviation, `{dord}` English ordinal day (`1st`, `22nd`, `13th` …) -/
+  | y | m | m02 | d | d02 | mon | abbr | dord
+deriving DecidableEq, Repr, Inhabited
+
+/-- `'%02d' % n` -/
+def pad2 (n : Nat) : Str := if n < 10 then 48 :: RTV.DtRes.decStr n else RTV.DtRes.decStr n
+
+/-- `'th' if 11 <= d % 100 <= 13 else {1: 'st', 2: 'nd', 3: 'rd'}.get(d % 10, 'th')` -/
+def ordSuffix (d : Nat) : Str :=
+  if 11 ≤ d % 100 ∧ d % 100 ≤ 13 then [116, 104]
+  else if d % 10 = 1 then [115, 116] else if d % 10 = 2 then [110, 100] else if d % 10 = 3 then [114, 100] else [116, 104]
+
+/-- the month names / abbreviations of the contract -/
+structure Names where
+  mon : List Str
+  abbr : List Str
+
+def Tok.render (N : Names) : Tok → Nat → Nat → Nat → Str
+  | .lit c, _, _, _ => [c]
+  | .y, yy, _, _ => RTV.DtRes.decStr yy
+  | .m, _, mm, _ => RTV.DtRes.decStr mm
+  | .m02, _, mm, _ => pad2 mm
+  | .d, _, _, dd => RTV.DtRes.decStr dd
+  | .d02, _, _, dd => pad2 dd
+  | .mon, _, mm, _ => N.mon.getD (mm - 1) []
+  | .abbr, _, mm, _ => N.abbr.getD (mm - 1) []
+  | .dord, _, _, dd => RTV.DtRes.decStr dd ++ ordSuffix dd
+
+/-- which group a token feeds: 0 literal, 1 year, 2 month, 3 day (the translator's group numbers) -/
+def Tok.kind : Tok → Nat
+  | .lit _ => 0
+  | .y => 1
+  | .m | .m02 | .mon | .abbr => 2
+  | .d | .d02 | .dord => 3
+
+def renderL (N : Names) (L : List Tok) (yy mm dd : Nat) : Str := L.flatMap fun t => t.render N yy mm dd
 
 end RTV.DateFront
